@@ -1009,3 +1009,64 @@ fn c02_10_park_timeout_around_the_yield() {
     assert!(unsafe { tl::DEL_TIMERS } == if timed { 1 } else { 0 }, "[C18.2-timer-deleted] a still linked timer entry is handed to del_timer");
     sup::leave_coroutine();
 }
+
+static mut IN_SUBSCRIBE: bool = false;
+static mut STATE_LOADS_IN_SUBSCRIBE: usize = 0;
+/// every read of the park token made by `subscribe` must find the coroutine already registered: an unpark that
+/// lands right after such a read can only wake the coroutine through the slot
+fn state_load_checks_registration(this: &AtomicBool, _o: Ordering) -> bool {
+    unsafe {
+        if IN_SUBSCRIBE && !PARK.is_null() && std::ptr::eq(this, &(*PARK).state) {
+            STATE_LOADS_IN_SUBSCRIBE += 1;
+            let p = &*PARK;
+            let reg = match p.wait_co.take() {
+                Some(c) => {
+                    p.wait_co.store(c);
+                    true
+                }
+                None => false,
+            };
+            assert!(reg, "[C02.2-register-before-recheck] subscribe reads the park token before the coroutine is registered: an unpark landing between that read and the registration is lost");
+        }
+        *(this.as_ptr())
+    }
+}
+
+//@ obligation: C02.8d
+//@ property: C02 C09
+//@ kind: K3
+//@ complete: yes
+//@ functions: Park::subscribe
+//@ statement: ordering inside subscribe: the coroutine is stored in the wake slot BEFORE the park token is re-read (and the token is re-read at all),
+//@ statement: so that an unpark landing at any point finds either the coroutine in the slot or its token seen by the re-check
+#[kani::proof]
+#[kani::stub(crate::scheduler::get_scheduler, sup::get_scheduler_stub)]
+#[kani::stub(crate::scheduler::Scheduler::schedule, sup::schedule_stub)]
+#[kani::stub(crate::scheduler::Scheduler::add_timer, tl::add_timer_stub)]
+#[kani::stub(crate::scheduler::Scheduler::del_timer, tl::del_timer_stub)]
+#[kani::stub(crate::coroutine_impl::run_coroutine, sup::run_coroutine_stub)]
+#[kani::stub(<crate::park::Park as std::ops::Drop>::drop, sup::park_drop_noop)]
+#[kani::stub(crate::yield_now::set_co_para, sup::set_co_para_kind_only)]
+#[kani::stub(std::sync::atomic::Atomic::<bool>::load, state_load_checks_registration)]
+#[kani::unwind(3)]
+fn c02_8d_subscribe_registers_before_recheck() {
+    sup::trace_reset();
+    sup::scheduler_reset();
+    tl::timers_reset();
+    let _h = sup::enter_coroutine();
+    let p: &'static Park = Box::leak(Box::new(Park::new()));
+    let mut co: CoroutineImpl = generator::shim_new_empty(0x1000);
+    co.set_local_data(unsafe { generator::ghost::CUR_LOCAL });
+    if kani::any() {
+        p.state.store(true, Ordering::Release);
+    }
+    unsafe {
+        PARK = p;
+        STATE_LOADS_IN_SUBSCRIBE = 0;
+        IN_SUBSCRIBE = true;
+    }
+    EventSource::subscribe(unsafe { &mut *(p as *const Park as *mut Park) }, co);
+    unsafe { IN_SUBSCRIBE = false };
+    assert!(unsafe { STATE_LOADS_IN_SUBSCRIBE } >= 1, "[C02.2-recheck-exists] subscribe must re-read the park token after registering");
+    sup::leave_coroutine();
+}
